@@ -1,9 +1,22 @@
 (* C19 — runs leave inputs untouched, scratch space empty, and do not interfere.
-   Property theorems only: each is closed by `exact <lemma>` (Proofs/FsModelP.v).
+   Property theorems only: each is closed by `exact <lemma>` (Proofs/FsModelP.v, Proofs/FsProgP.v).
    The acceptor `accept : config -> fs -> list op -> result` (Model/FsModel.v) is what the
-   harness feeds the strace'd operation traces of the real stages to. *)
+   harness feeds the strace'd operation traces of the real stages to.  The trace alphabet
+   contains the OBSERVATIONS a run makes (`Stat p r`: stat / exists() / is_file() / access /
+   opening a directory / a call that failed with ENOENT or EEXIST), not only its effects.
+
+   What these theorems are and are not.  They are soundness theorems of the ACCEPTOR and of
+   program runs through it; they say something about the real stages only because the real
+   traces are accepted (the tie: harness/props/c19.py, tag 1901/1902).  The content ids that
+   operations write (`Create p t cid`, `OpenW p cid`) are PART OF THE TRACE / chosen by the
+   program from what it observed: the theorems show that no observation the acceptor permits
+   can differ between the two file systems, so a program has nothing to compute different
+   content FROM; that the real stages compute their output from their inputs only (data flow
+   inside the Python process) is not a statement about file operations and is established by
+   the tie, which digests the outputs of runs across histories (stale files planted, success
+   after success/failure, concurrent pairs) against an undisturbed run. *)
 From Coq Require Import ZArith List Bool.
-From CTM Require Import Base.Sx Model.FsModel Proofs.FsModelP.
+From CTM Require Import Base.Sx Model.FsModel Proofs.FsModelP Proofs.FsProgP.
 Import ListNotations.
 Open Scope Z_scope.
 
@@ -28,17 +41,77 @@ Theorem c19_acceptor_sound : forall c f0 t g,
 Proof. exact acceptor_sound. Qed.
 Print Assumptions c19_acceptor_sound.
 
-(* Files left by earlier runs do not matter: two initial file systems that agree on the
-   inputs (and on the query file when it is writable) and contain nothing under the names
-   the trace makes in the scratch root — but are otherwise ARBITRARY, in particular in the
-   scratch and output directories and at the output paths themselves — accept the same
-   traces, and every declared output ends up the same (or, if the run never wrote it, is
-   what it was). *)
+(* Nothing that existed before an accepted run is gone after it — for EVERY path, so in
+   particular for a declared output that an earlier run left: it may be overwritten
+   (Create with O_TRUNC, Rename onto it), it is never removed.  The only declared outputs a
+   run may Unlink (or Rename away) are those that were ABSENT when it created them:
+   run_mapping's probe `if not pth.exists(): write 'junk'; pth.unlink()`
+   (ex_delete_preexisting_output_rejected: code 13; ex_accepted: the probe of an absent log). *)
+Theorem c19_preexisting_output_never_deleted : forall c f0 t g,
+  accept c f0 t = Accepted g -> forall p, lookup f0 p <> None -> lookup g p <> None.
+Proof. exact preexisting_never_deleted. Qed.
+Print Assumptions c19_preexisting_output_never_deleted.
+
+(* PROGRAMS.  A trace is what one run did on one file system; what a run does NEXT may depend
+   on what it has seen.  A program `pg : list obs -> op` maps the history of observations
+   (OContent: what an OpenR read; ONames: the sorted names a ListDir returned; OKind: what a
+   Stat was told — its answer slot is filled in by the file system, `fill`; ONone for effects)
+   to the next operation; `paccept c pg fuel f g t h`: run through the acceptor on f it
+   returned within `fuel` operations, leaving g, having made the trace t and seen h.
+
+   Files left by earlier runs do not matter.  Let f1, f2 agree
+     - on the inputs (and on the query file when it is writable),
+     - in KIND (absent / file / directory — not content) at the declared paths and their
+       ancestors (kregion: scratch root, query, inputs, outputs; so the same declared outputs
+       exist in both, with arbitrary, different stale content),
+     - in not containing the names the run makes in the scratch root (tempfile drew names
+       that are new in both),
+   and be otherwise ARBITRARY — in particular in the scratch and output directories.
+   If the run of pg on f1 is accepted then the run of THE SAME PROGRAM on f2 is accepted, makes
+   the same trace (every operation, every answer) and sees the same observations; every
+   declared output ends up the same (or, if the run never wrote it, is what it was in each);
+   and every other path outside the run's own scratch names — every stale entry — is in each
+   file system exactly what it was.  The reason is observe_sim: each observation the acceptor
+   permits (code 12 refuses the others) has the same answer in both.
+
+   The second hypothesis cannot be dropped: whether a declared OUTPUT exists is something the
+   acceptor lets a run see (run_mapping does look: the probe above), and a program may
+   branch on it (ex_existence_hypothesis_needed).  What the real stages do with the answer is
+   checked by the tie only: histories `success-after-success` / `log-file-of-earlier-run`
+   run with the outputs present and compare against a run with them absent. *)
+Theorem c19_stale_independence_program : forall c pg fuel f1 f2 g1 t h,
+  outside_scratch c = true -> mem (c_query c) (c_outputs c) = false ->
+  (forall p, In p (c_inputs c) -> lookup f1 p = lookup f2 p) ->
+  (c_obsm c = true -> lookup f1 (c_query c) = lookup f2 (c_query c)) ->
+  (forall p, kregion c p = true -> kind_of (lookup f1 p) = kind_of (lookup f2 p)) ->
+  paccept c pg fuel f1 g1 t h ->
+  (forall p, in_cone c (fresh_names c t) p = true -> lookup f1 p = None /\ lookup f2 p = None) ->
+  exists g2,
+    paccept c pg fuel f2 g2 t h /\
+    (forall o, In o (c_outputs c) ->
+       lookup g1 o = lookup g2 o \/ (lookup g1 o = lookup f1 o /\ lookup g2 o = lookup f2 o)) /\
+    (forall p, in_cone c (fresh_names c t) p = false -> ~ In p (c_outputs c) -> wq c p = false ->
+       lookup g1 p = lookup f1 p /\ lookup g2 p = lookup f2 p).
+Proof. exact stale_independence_program_thm. Qed.
+Print Assumptions c19_stale_independence_program.
+
+(* The trace of an accepted program run is an accepted trace: c19_acceptor_sound,
+   c19_preexisting_output_never_deleted and c19_concurrent_noninterference apply to it. *)
+Theorem c19_program_run_is_accepted_trace : forall c pg fuel f g t h,
+  paccept c pg fuel f g t h -> accept c f t = Accepted g.
+Proof. exact program_run_is_accepted_trace. Qed.
+Print Assumptions c19_program_run_is_accepted_trace.
+
+(* The same for ONE FIXED trace (the lemma behind the program theorem; it is what applies to
+   a recorded trace): a trace accepted on f1 — including the answers of its Stat operations —
+   is accepted on f2, with the same conclusion on the outputs.  On its own this says little
+   about a run that adapts to what it sees (audit defect 6): that is the program theorem. *)
 Theorem c19_stale_independence : forall c t f1 f2 g1,
   outside_scratch c = true -> mem (c_query c) (c_outputs c) = false ->
   (forall p, In p (c_inputs c) -> lookup f1 p = lookup f2 p) ->
   (c_obsm c = true -> lookup f1 (c_query c) = lookup f2 (c_query c)) ->
   (forall p, in_cone c (fresh_names c t) p = true -> lookup f1 p = None /\ lookup f2 p = None) ->
+  (forall p, kregion c p = true -> kind_of (lookup f1 p) = kind_of (lookup f2 p)) ->
   accept c f1 t = Accepted g1 ->
   exists g2, accept c f2 t = Accepted g2 /\
     forall o, In o (c_outputs c) ->
@@ -48,9 +121,10 @@ Print Assumptions c19_stale_independence.
 
 (* Two runs sharing scratch and output directories: if each trace is accepted on its own
    and the runs are compatible (same scratch root, disjoint fresh names, neither writes a
-   declared file the other reads or writes, nothing declared inside scratch), then EVERY
-   interleaving `il` of the two traces is accepted by the two-run machine and every output
-   of either run ends exactly as in its solo run. *)
+   declared file the other reads, writes or may look at, nothing declared inside scratch), then
+   EVERY interleaving `il` of the two traces is accepted by the two-run machine — every Stat
+   of either run gets the answer it got alone — and every output of either run ends exactly
+   as in its solo run. *)
 Theorem c19_concurrent_noninterference : forall c1 c2 f t1 t2 il g1 g2,
   proj true il = t1 -> proj false il = t2 ->
   mem (c_query c1) (c_outputs c1) = false -> mem (c_query c2) (c_outputs c2) = false ->
@@ -76,15 +150,19 @@ Definition ex_fs : fs :=
   [([1], (KDir, 0)); ([2], (KDir, 0)); ([3], (KDir, 0));
    ([1;1], (KFile, 1)); ([1;2], (KFile, 2)); ([1;3], (KFile, 3));
    ([3;9], (KDir, 0)); ([3;9;1], (KFile, 7)); ([2;1], (KFile, 8))].
-(* the shape of a successful run_mapping: cell_type_mapper_* (5), probe of the log path,
-   result_buffer_* (6), file_tracker_* copy of the query, results_buffer_* with one
-   assignment file that is listed, read and removed, clean-up, outputs *)
-Definition ex_trace : list op :=
-  [ Mkdir [3;5]; Create [2;2] true 100; Unlink [2;2]; Mkdir [3;6];
-    Mkdir [3;5;1]; OpenR [1;1]; Create [3;5;1;1] true 101; OpenR [1;2]; OpenR [3;5;1;1];
-    OpenR [1;3]; Mkdir [3;6;2]; Create [3;6;2;7] true 102; ListDir [3;6;2]; OpenR [3;6;2;7];
-    Unlink [3;6;2;7]; Rmdir [3;6;2]; Unlink [3;5;1;1]; Rmdir [3;5;1]; Rmdir [3;6]; Rmdir [3;5];
+(* the shape of a successful run_mapping as strace shows it: is tmp/ a directory?,
+   cell_type_mapper_* (5), log.txt exists? no: probe of the log path, result_buffer_* (6),
+   file_tracker_* copy of the query, results_buffer_* with one assignment file that is listed,
+   stat'ed, read and removed, clean-up (with a look at a directory that is gone), outputs *)
+Definition ex_body : list op :=
+  [ Mkdir [3;6];
+    Mkdir [3;5;1]; Stat [1;1] PFile; OpenR [1;1]; Create [3;5;1;1] true 101; OpenR [1;2]; OpenR [3;5;1;1];
+    OpenR [1;3]; Mkdir [3;6;2]; Create [3;6;2;7] true 102; ListDir [3;6;2]; Stat [3;6;2;7] PFile;
+    OpenR [3;6;2;7]; Unlink [3;6;2;7]; Rmdir [3;6;2]; Unlink [3;5;1;1]; Rmdir [3;5;1];
+    Stat [3;5;1] PAbsent; Rmdir [3;6]; Rmdir [3;5]; Stat [2] PDir; Stat [2;1] PFile;
     Create [2;2] false 103; Create [2;1] true 104; Return true ].
+Definition ex_trace : list op :=
+  [ Stat [3] PDir; Mkdir [3;5]; Stat [2;2] PAbsent; Create [2;2] true 100; Unlink [2;2] ] ++ ex_body.
 
 Example ex_accepted : exists g, accept ex_cfg ex_fs ex_trace = Accepted g /\
   lookup g [2;1] = Some (KFile, 104) /\ lookup g [2;2] = Some (KFile, 103) /\
@@ -93,26 +171,94 @@ Example ex_accepted : exists g, accept ex_cfg ex_fs ex_trace = Accepted g /\
   fresh_names ex_cfg ex_trace = [5; 6].
 Proof. eexists. vm_compute. repeat split; reflexivity. Qed.
 
-(* the hypotheses of stale independence are satisfiable: the same trace on a file system
-   with a different stale content of scratch and output directory *)
+(* the same trace on a file system with a different stale content of the scratch and output
+   directories, and OTHER content in the stale result.json *)
 Definition ex_fs' : fs :=
   [([1], (KDir, 0)); ([2], (KDir, 0)); ([3], (KDir, 0));
    ([1;1], (KFile, 1)); ([1;2], (KFile, 2)); ([1;3], (KFile, 3));
-   ([3;4], (KFile, 11)); ([2;2], (KFile, 12)); ([2;5], (KFile, 13))].
+   ([3;4], (KFile, 11)); ([2;1], (KFile, 12)); ([2;5], (KFile, 13))].
 Example ex_stale : exists g, accept ex_cfg ex_fs' ex_trace = Accepted g /\
   lookup g [2;1] = Some (KFile, 104) /\ lookup g [2;2] = Some (KFile, 103) /\
   lookup g [3;4] = Some (KFile, 11) /\ lookup g [2;5] = Some (KFile, 13).
 Proof. eexists. vm_compute. repeat split; reflexivity. Qed.
+
+(* a PROGRAM with the shape of run_mapping: it looks whether the log exists and probes the
+   path only when it does not; then the body above.  (The answer slot PExists of the Stat it
+   issues is irrelevant: it is filled in by the file system.) *)
+Definition ex_prog : program := fun h =>
+  match h with
+  | [] => Stat [3] PExists
+  | [_] => Mkdir [3;5]
+  | [_; _] => Stat [2;2] PExists
+  | _ :: _ :: OKind PAbsent :: r =>
+      nth (length r) ([Create [2;2] true 100; Unlink [2;2]] ++ ex_body) (Return false)
+  | _ :: _ :: _ :: r => nth (length r) ex_body (Return false)
+  end.
+
+(* all hypotheses of the program theorem hold for ex_prog on ex_fs / ex_fs' (which differ in
+   the stale entries and in the content of the stale output [2;1]); the run makes ex_trace *)
+Example ex_program_hypotheses :
+  outside_scratch ex_cfg = true /\ mem (c_query ex_cfg) (c_outputs ex_cfg) = false /\
+  (forall p, In p (c_inputs ex_cfg) -> lookup ex_fs p = lookup ex_fs' p) /\
+  (forall p, kregion ex_cfg p = true -> kind_of (lookup ex_fs p) = kind_of (lookup ex_fs' p)) /\
+  (exists g h, paccept ex_cfg ex_prog 40 ex_fs g ex_trace h /\ length h = 30%nat) /\
+  (forall p, in_cone ex_cfg (fresh_names ex_cfg ex_trace) p = true ->
+             lookup ex_fs p = None /\ lookup ex_fs' p = None) /\
+  lookup ex_fs [2;1] <> lookup ex_fs' [2;1] /\ lookup ex_fs [3;9;1] <> lookup ex_fs' [3;9;1].
+Proof.
+  split; [vm_compute; reflexivity|]. split; [vm_compute; reflexivity|].
+  split; [intros p [<-|[<-|[<-|[]]]]; reflexivity|].
+  split; [apply kagree_b_spec; vm_compute; reflexivity|].
+  split; [do 2 eexists; split; [eexists; vm_compute; split; reflexivity | vm_compute; reflexivity]|].
+  split; [intros p Hp; split; (eapply cone_free_b_spec; [|exact Hp]); vm_compute; reflexivity|].
+  split; vm_compute; discriminate.
+Qed.
+
+(* the same program where an earlier run left log.txt: it does NOT probe (a shorter trace),
+   and the log left there is appended to -- refused with code 11 (finding F9b: the real
+   run_mapping does this; known_findings.json) *)
+Definition ex_fs_log : fs := ([2;2], (KFile, 15)) :: ex_fs.
+Example ex_program_log_exists :
+  prun ex_cfg ex_prog 40 ex_fs_log bk0 [] = Err 11 /\
+  (exists g b h, prun ex_cfg ex_prog 25 ex_fs_log bk0 [] = Ok (g, b, [Stat [3] PDir; Mkdir [3;5]; Stat [2;2] PFile] ++ firstn 22 ex_body, h)).
+Proof. split; [vm_compute; reflexivity | do 3 eexists; vm_compute; reflexivity]. Qed.
+
+(* ... and the trace recorded where log.txt was absent is NOT accepted where it exists (the
+   audit's example: the acceptor used to accept it there): the answer of its Stat is wrong *)
+Example ex_trace_where_log_exists_rejected : accept ex_cfg ex_fs_log ex_trace = Rejected 2 4.
+Proof. vm_compute. reflexivity. Qed.
+
+(* the hypothesis on the KIND at the declared outputs is needed: this program looks whether
+   the output [2;2] exists and writes a different result [2;1] accordingly; both runs are
+   accepted, on file systems that differ ONLY in that an earlier run left [2;2] *)
+Definition ex_peek : program := fun h =>
+  match h with
+  | [] => Stat [2;2] PExists
+  | [OKind PAbsent] => Create [2;1] true 1
+  | [_] => Create [2;1] true 2
+  | _ => Return true
+  end.
+Example ex_existence_hypothesis_needed : exists g1 g2 t1 t2 h1 h2,
+  paccept ex_cfg ex_peek 5 ex_fs g1 t1 h1 /\ paccept ex_cfg ex_peek 5 ex_fs_log g2 t2 h2 /\
+  (forall p, p <> [2;2] -> lookup ex_fs p = lookup ex_fs_log p) /\
+  lookup g1 [2;1] = Some (KFile, 1) /\ lookup g2 [2;1] = Some (KFile, 2).
+Proof.
+  do 6 eexists. split; [eexists; vm_compute; split; reflexivity|].
+  split; [eexists; vm_compute; split; reflexivity|].
+  split; [|vm_compute; split; reflexivity].
+  intros p Hp. unfold ex_fs_log. cbn [lookup]. destruct (path_eqb [2;2] p) eqn:E; [|reflexivity].
+  apply path_eqb_eq in E. congruence.
+Qed.
 
 (* the shape of a FAILED run_mapping (a worker died): the result buffer (6), the buffer of the
    assignment stage inside it (6/2) and the assignment file a surviving worker wrote there
    are removed in the `finally` block, then the tmp directory; log and JSON are written *)
 Example ex_failed_run_accepted : exists g,
   accept ex_cfg ex_fs
-    [ Mkdir [3;5]; Create [2;2] true 100; Unlink [2;2]; Mkdir [3;6]; OpenR [1;1];
+    [ Mkdir [3;5]; Stat [2;2] PAbsent; Create [2;2] true 100; Unlink [2;2]; Mkdir [3;6]; OpenR [1;1];
       Mkdir [3;6;2]; Create [3;6;2;7] true 102;
-      ListDir [3;6]; ListDir [3;6;2]; Unlink [3;6;2;7]; Rmdir [3;6;2]; Rmdir [3;6]; Rmdir [3;5];
-      Create [2;2] false 103; Create [2;1] true 104; Return false ] = Accepted g /\
+      ListDir [3;6]; ListDir [3;6;2]; Unlink [3;6;2;7]; Rmdir [3;6;2]; Rmdir [3;6]; Stat [3;6] PAbsent;
+      Rmdir [3;5]; Create [2;2] false 103; Create [2;1] true 104; Return false ] = Accepted g /\
   lookup g [3;6] = None /\ lookup g [3;5] = None /\ lookup g [3;9;1] = Some (KFile, 7).
 Proof. eexists. vm_compute. repeat split; reflexivity. Qed.
 
@@ -134,6 +280,25 @@ Example ex_write_query : accept ex_cfg ex_fs [OpenW [1;1] 100; Return true] = Re
 Proof. vm_compute. reflexivity. Qed.
 Example ex_name_taken : accept ex_cfg ex_fs [Mkdir [3;9]; Return true] = Rejected 0 3.
 Proof. vm_compute. reflexivity. Qed.
+(* LOOKING at what an earlier run left — or at whether it left something under a name —
+   in the scratch directory (a stale results_buffer, a fixed name that is absent) or in the
+   output directory (a file that is not a declared output): code 12, whatever the answer *)
+Example ex_stat_stale : accept ex_cfg ex_fs [Stat [3;9] PDir; Return true] = Rejected 0 12.
+Proof. vm_compute. reflexivity. Qed.
+Example ex_stat_stale_absent : accept ex_cfg ex_fs [Stat [3;8] PAbsent; Return true] = Rejected 0 12.
+Proof. vm_compute. reflexivity. Qed.
+Example ex_stat_stale_in_outdir : accept ex_cfg ex_fs' [Stat [2;5] PFile; Return true] = Rejected 0 12.
+Proof. vm_compute. reflexivity. Qed.
+(* an answer that contradicts the file system (the snapshot or the parser is wrong): code 4 *)
+Example ex_stat_wrong_answer : accept ex_cfg ex_fs [Stat [2;1] PAbsent; Return true] = Rejected 0 4.
+Proof. vm_compute. reflexivity. Qed.
+(* deleting, or renaming away, a declared output that existed before the run — what the acceptor
+   accepted before the repair of audit defect 6(b): code 13 *)
+Example ex_delete_preexisting_output_rejected :
+  accept ex_cfg ex_fs_log [Create [2;2] true 100; Unlink [2;2]; Return true] = Rejected 1 13 /\
+  accept ex_cfg ex_fs_log [Mkdir [3;5]; Create [2;2] true 100; Rename [2;2] [3;5;1]; Return true] = Rejected 2 13 /\
+  exists g, accept ex_cfg ex_fs [Create [2;2] true 100; Unlink [2;2]; Return true] = Accepted g.
+Proof. vm_compute. repeat split; try reflexivity. eexists. reflexivity. Qed.
 
 (* a second, compatible run (other outputs, other fresh names) and one interleaving *)
 Definition ex_cfg2 : config :=
@@ -141,8 +306,8 @@ Definition ex_cfg2 : config :=
      c_query := [1;4]; c_obsm := true; c_strict := true |}.
 Definition ex_fs2 : fs := ([1;4], (KFile, 4)) :: ex_fs.
 Definition ex_trace2 : list op :=
-  [ Mkdir [3;7]; OpenR [1;4]; Create [3;7;1] true 200; OpenR [1;2]; OpenR [3;7;1];
-    Unlink [3;7;1]; Rmdir [3;7]; OpenW [1;4] 201; Create [2;3] true 202; Return true ].
+  [ Mkdir [3;7]; OpenR [1;4]; Create [3;7;1] true 200; OpenR [1;2]; OpenR [3;7;1]; Stat [2] PDir;
+    Stat [2;3] PAbsent; Unlink [3;7;1]; Rmdir [3;7]; OpenW [1;4] 201; Create [2;3] true 202; Return true ].
 Fixpoint zip_il (a b : list op) : list (bool * op) :=
   match a, b with
   | x :: a', y :: b' => (true, x) :: (false, y) :: zip_il a' b'
